@@ -5,3 +5,4 @@ import Props.C07
 import Props.C02
 import Props.C20
 import Props.C03
+import Props.C09
